@@ -29,8 +29,8 @@ fn full_collect_system_stats() {
     let is_its = (known && its_known) || (!known && sys == 32);
     let fee = u16::from_le_bytes([b[2], b[3]]);
     if r.is_ok() && is_its {
-        assert!(unsafe { SENT_LAYER_STAVE } == 1 && sent_total() == 1, "[C14] one layer/stave record per analysed ITS RDH");
-        assert!(unsafe { LAST_LAYER_STAVE } == (((fee >> 12) & 0b111) as u8, (fee & 0x3F) as u8), "[C14] layer is FEE id bits 14:12, stave is bits 5:0");
+        assert!(unsafe { REC.layer_stave } == 1 && sent_total() == 1, "[C14] one layer/stave record per analysed ITS RDH");
+        assert!(unsafe { REC.last_layer_stave } == (((fee >> 12) & 0b111) as u8, (fee & 0x3F) as u8), "[C14] layer is FEE id bits 14:12, stave is bits 5:0");
     } else if r.is_ok() && (known || sys != 32) {
         assert!(sent_total() == 0, "[C14] no ITS statistics for other systems");
     }
